@@ -13,9 +13,11 @@ for s in $SEEDS; do
   done
 done
 git checkout -- evidence 2>/dev/null
-for p in C04 C09 C10 C17 C20; do
-  r=$(selftest/run_mutant.sh $p selftest/mutants/NEUTRAL-behaviour-preserving.diff $B 2>&1 | grep '^RESULT')
-  echo "$r" | cut -c1-160
-  echo "$r" | grep -q ESCAPED || fail=1
+for n in selftest/mutants/NEUTRAL-*.diff; do
+  for p in C04 C09 C10 C17 C20; do
+    r=$(selftest/run_mutant.sh $p $n $B 2>&1 | grep '^RESULT')
+    echo "$r" | cut -c1-160
+    echo "$r" | grep -q ESCAPED || fail=1
+  done
 done
 [ $fail -eq 0 ] && echo "NO-ALARM OK" || { echo "NO-ALARM FAILED"; exit 1; }
